@@ -13,6 +13,7 @@ import (
 
 	"verif/lib/ev"
 	"verif/lib/mc"
+	"verif/lib/refgeom"
 )
 
 var alphabet = []orb.Point{{0, 0}, {3, 0}, {6, 0}, {3, 4}, {6, 8}, {0, 4}, {6, 4}, {3, 8}}
@@ -163,6 +164,10 @@ func main() {
 				continue
 			}
 			validate(call, out, N)
+			// the same line with spare capacity behind it (a prefix of a longer slice, a slice built by append)
+			if o2 := resample.Resample(orb.LineString(refgeom.Spare(ls)), df.f, N); refgeom.Bits(o2) != refgeom.Bits(out) {
+				c.Failf("layout-dependent", "%s gives %v for the line with spare capacity and %v for an exact-capacity copy | %s", call, o2, out, desc(call))
+			}
 		}
 		var ds []float64
 		ds = append(ds, -1, 0, 1, 2, 3, 4, 5, 7, 0.5, 0.375)
@@ -184,6 +189,9 @@ func main() {
 				continue // geo: count depends on the geodesic length; checked below with its own total
 			}
 			out := resample.ToInterval(ls.Clone(), df.f, dd)
+			if o2 := resample.ToInterval(orb.LineString(refgeom.Spare(ls)), df.f, dd); refgeom.Bits(o2) != refgeom.Bits(out) {
+				c.Failf("layout-dependent", "%s gives %v for the line with spare capacity and %v for an exact-capacity copy | %s", call, o2, out, desc(call))
+			}
 			if d <= 0 {
 				if out != nil {
 					c.Failf("nonpositive", "non-positive d must return nothing, got %v | %s", out, desc(call))
